@@ -1022,12 +1022,12 @@ pub fn strategy() -> BoxedStrategy<Case> {
 
 pub fn run_all(ctx: &Ctx) {
     let t = ctx.tier;
-    ctx.run_sub("glwe_keyswitch", t.pick(3_000, 60_000), 64, strategy, test_ks);
-    ctx.run_sub("glwe_automorphism", t.pick(3_000, 60_000), 64, strategy, test_aut);
-    ctx.run_sub("glwe_trace", t.pick(1_000, 20_000), 64, strategy, test_trace);
-    ctx.run_sub("lwe_conversions", t.pick(3_000, 60_000), 64, strategy, test_lwe);
-    ctx.run_sub("key_on_key", t.pick(2_000, 40_000), 64, strategy, test_kk);
-    ctx.run_sub("packing", t.pick(800, 16_000), 64, strategy, test_pack);
+    ctx.run_sub("glwe_keyswitch", t.pick(8_000, 200_000), 64, strategy, test_ks);
+    ctx.run_sub("glwe_automorphism", t.pick(8_000, 200_000), 64, strategy, test_aut);
+    ctx.run_sub("glwe_trace", t.pick(3_000, 60_000), 64, strategy, test_trace);
+    ctx.run_sub("lwe_conversions", t.pick(8_000, 200_000), 64, strategy, test_lwe);
+    ctx.run_sub("key_on_key", t.pick(6_000, 120_000), 64, strategy, test_kk);
+    ctx.run_sub("packing", t.pick(2_400, 48_000), 64, strategy, test_pack);
 }
 
 pub fn replay(ctx: &Ctx, sub: &str, case: &serde_json::Value) -> i32 {
